@@ -65,7 +65,7 @@ Proof.
 Qed.
 
 
-Lemma initK cb0 inb n scr ups sy : InvK cb0 (init_sy cb0 inb n scr ups sy).
+Lemma initK cb0 inb n scr ups sy nds pks : InvK cb0 (init_rd cb0 inb n scr ups sy nds pks).
 Proof.
   constructor; [destruct cb0; initc|constructor; unfold Wg; cbn; rewrite ?cz_repeat_false by reflexivity; uc; lia].
 Qed.
@@ -90,7 +90,7 @@ Record InvR (s : est) : Prop := {
   r_rem : nremote s + e_halfn (epc s) + e_half (epc s) <= ncl (processed s) }.
 Lemma stepR s w : InvR s -> InvR (step s w).
 Proof. intros [H1]. cases s w; brk; constructor; first [solve [fin s] | destruct e; fin s]. Qed.
-Lemma initR cb0 inb n scr ups sy : InvR (init_sy cb0 inb n scr ups sy).
+Lemma initR cb0 inb n scr ups sy nds pks : InvR (init_rd cb0 inb n scr ups sy nds pks).
 Proof. initc. Qed.
 Lemma runR sched s : InvR s -> InvR (run sched s).
 Proof. revert s; induction sched as [|w l IH]; simpl; intros s H; auto. apply IH, stepR, H. Qed.
@@ -135,8 +135,8 @@ Proof.
 Qed.
 
 Section C10.
-Variables (cb0 : bool) (inb : list ev) (ncl_ : nat) (scr : list (nat * nat)) (ups : list (list (list Z))) (sy : list nat).
-Let s0 := init_sy cb0 inb ncl_ scr ups sy.
+Variables (cb0 : bool) (inb : list ev) (ncl_ : nat) (scr : list (nat * nat)) (ups : list (list (list Z))) (sy : list nat) (nds : list nat) (pks : list bool).
+Let s0 := init_rd cb0 inb ncl_ scr ups sy nds pks.
 
 Theorem monotone sched sched' :
   let s := run sched s0 in let s' := run sched' s in
@@ -145,7 +145,7 @@ Theorem monotone sched sched' :
   (st s = c_streamHalfClosed -> st s' = c_streamHalfClosed \/ st s' = c_streamClosed) /\
   (st s = v_streamLocalHalfClosed -> st s' = v_streamLocalHalfClosed \/ st s' = c_streamClosed).
 Proof.
-  intros s s'. pose proof (runAll sched s0 (initAll _ _ _ _ _ _)) as HA. fold s in HA.
+  intros s s'. pose proof (runAll sched s0 (initAll _ _ _ _ _ _ _ _)) as HA. fold s in HA.
   destruct HA as [[_ _ _ _ Hst _] _ _ _ _].
   pose proof (run_mono sched' s) as Hm. fold s' in Hm. unfold mono in Hm. uc. lia.
 Qed.
@@ -155,7 +155,7 @@ Theorem callbacks_at_most_once sched :
   0 <= nlocal s /\ 0 <= nremote s /\ nlocal s + nremote s <= 1 /\
   (st s = c_streamOpened -> nlocal s + nremote s = 0) /\ ncl (out s) <= nlocal s.
 Proof.
-  intros s. pose proof (runAll sched s0 (initAll _ _ _ _ _ _)) as HA. fold s in HA.
+  intros s. pose proof (runAll sched s0 (initAll _ _ _ _ _ _ _ _)) as HA. fold s in HA.
   destruct HA as [_ [Hacc [Hn1 Hn2] Hwake Hsent] _ _ _]. czpos s.
   destruct (Z.eqb_spec (st s) c_streamOpened); destruct (Z.eqb_spec (st s) v_streamLocalHalfClosed);
     cbn [b2z] in Hacc; uc; repeat split; try lia.
@@ -166,7 +166,7 @@ Theorem final_flush sched i :
   nth_error (clos s) i = Some KRet ->
   st s <> c_streamOpened /\ flush_res s = RErrStreamClosed /\ read_res s <> RBlocked.
 Proof.
-  intros s Hi. pose proof (runAll sched s0 (initAll _ _ _ _ _ _)) as HA. fold s in HA.
+  intros s Hi. pose proof (runAll sched s0 (initAll _ _ _ _ _ _ _ _)) as HA. fold s in HA.
   destruct HA as [_ _ [_ Hret _] _ _].
   assert (Hst : st s <> c_streamOpened).
   { intros E. specialize (Hret E). pose proof (cz_pos_in c_ret (clos s) i KRet Hi eq_refl). lia. }
@@ -181,10 +181,39 @@ Theorem wake sched :
   epc s <> EHalfN -> cz c_pendcb (clos s) = 0 -> cz (gl c_pendcb) (gors s) = 0 ->
   cnotify s = true.
 Proof.
-  intros s Hst He Hc Hg. pose proof (runAll sched s0 (initAll _ _ _ _ _ _)) as HA. fold s in HA.
+  intros s Hst He Hc Hg. pose proof (runAll sched s0 (initAll _ _ _ _ _ _ _ _)) as HA. fold s in HA.
   destruct HA as [_ [_ _ Hwake _] _ _ _].
   assert (Hh : e_halfn (epc s) = 0) by (destruct (epc s); simpl; auto; congruence).
   destruct (cnotify s); auto. cbn [b2z] in Hwake. lia.
+Qed.
+
+(* pending calls: an invocation of OnData parked in a blocking read (readMore's select) is woken by a close.
+   (i) close() that waits for the callback goroutine (its CAS started from opened / localHalfClosed) has closed
+   closeNotifyCh BEFORE the Wait: the goroutine it waits for is not stuck in its read.  (ii) in general, by `wake`:
+   once the state has left `opened` and nobody stands between its transition and its report, the parked goroutine's
+   next step leaves the select (parked_enabled) *)
+Theorem close_wakes_parked sched i old :
+  let s := run sched s0 in
+  (nth_error (clos s) i = Some (CWait old) \/ (exists j more, nth_error (gors s) j = Some (GCbClose (CWait old) more)) \/
+   (exists j, nth_error (gors s) j = Some (GClose (CWait old)))) ->
+  isloc old = true -> cnotify s = true.
+Proof.
+  intros s Hw Ho.
+  pose proof (runB sched s0 (initAll _ _ _ _ _ _ _ _) (initB _ _ _ _ _ _ _ _)) as [_ HB]. fold s in HB.
+  pose proof (cz_nonneg c_waitA (clos s)). pose proof (cz_nonneg (gl c_waitA) (gors s)).
+  destruct (cnotify s); [reflexivity|exfalso]. cbn [b2z] in HB.
+  destruct Hw as [Hw|[[j [m Hw]]|[j Hw]]].
+  - pose proof (cz_pos_in c_waitA (clos s) i _ Hw Ho). lia.
+  - pose proof (cz_pos_in (gl c_waitA) (gors s) j _ Hw Ho). lia.
+  - pose proof (cz_pos_in (gl c_waitA) (gors s) j _ Hw Ho). lia.
+Qed.
+Theorem parked_woken_by_close sched i nd cl :
+  let s := run sched s0 in
+  nth_error (gors s) i = Some (GRdPark nd cl) ->
+  st s <> c_streamOpened -> epc s <> EHalfN -> cz c_pendcb (clos s) = 0 -> cz (gl c_pendcb) (gors s) = 0 ->
+  nth_error (gors (step s (WGor i))) i <> Some (GRdPark nd cl).
+Proof.
+  intros s Hi Hst He Hc Hg. apply parked_enabled; [exact Hi|]. right. apply (wake sched); assumption.
 Qed.
 
 Theorem peer sched :
@@ -193,7 +222,7 @@ Theorem peer sched :
   st s <> c_streamOpened /\ flush_res s = RErrStreamClosed /\ read_res s <> RBlocked /\
   (recv s ++ concat (pending s) = [] -> read_res s = REndOfStream).
 Proof.
-  intros s Hp He. pose proof (runAll sched s0 (initAll _ _ _ _ _ _)) as HA. fold s in HA.
+  intros s Hp He. pose proof (runAll sched s0 (initAll _ _ _ _ _ _ _ _)) as HA. fold s in HA.
   destruct HA as [_ _ [_ _ Hpeer] _ _].
   assert (Hst : st s <> c_streamOpened).
   { destruct (Hpeer Hp) as [H|H]; auto. destruct (epc s); simpl in H; try lia. congruence. }
@@ -209,7 +238,7 @@ Theorem full sched :
   let s := run sched s0 in quiesc s -> close_returned s -> closed_ok s.
 Proof.
   intros Hs s. apply (full_inv cb0).
-  - apply (runAll sched s0 (initAll _ _ _ _ _ _)).
+  - apply (runAll sched s0 (initAll _ _ _ _ _ _ _ _)).
   - apply runK; [exact Hs|apply initAll|apply initK].
 Qed.
 End C10.
